@@ -6,7 +6,8 @@ from . import common, orch
 ID = "C22"
 ENGINE = "B"
 TIMEOUT = 60.0
-RULE = ("random DCOP (n<=6, dom<=3, arity<=3, unary, variable costs) x 1..4 agents x distribution "
+RULE = ("random DCOP (n<=6, dom<=3, arity<=3, unary, variable costs; one cost class in five has "
+        "entries equal to the finite hard-constraint value 10000 handed to the runtime) x 1..4 agents x distribution "
         "from oneagent/adhoc/gh_cgdp (constant footprint fallback) or a tape-independent random "
         "valid mapping x metrics mode x the shipped solve sequence (run_local_thread_dcop, "
         "deploy_computations, run(timeout=60 virtual s)) on the real runtime under the baton "
@@ -20,7 +21,7 @@ def generate(rng, tier):
         rng, n_range=(1, 6 if tier == "thorough" else 5), dom_range=(1, 3),
         shapes=("random", "random", "tree", "chain", "star", "clique", "components"),
         arity3_p=0.2, unary_p=0.2, varcost_p=0.3,
-        cost_classes=("small", "small", "signed", "float"), initial_p=0.1, max_space=600)
+        cost_classes=("small", "small", "signed", "float", "hard"), initial_p=0.1, max_space=600)
     case["algo"] = "dpop"
     case["params"] = {}
     comps = [v["name"] for v in case["variables"]]
